@@ -325,6 +325,11 @@ fn parse_number<'a, T: Iterator<Item = &'a Token>>(
     }
 
     let span = token.span(text);
+    // A number prefix must be followed by the spelling of a number, which the scanner
+    // reports as a Number or (e.g. "ff" in #xff) as a Symbol token.
+    if !matches!(token.token_type, TokenType::Number | TokenType::Symbol) {
+        return Err(UnexpectedToken(span.into()));
+    }
     match Number::parse_with_exactness(span, exactness, radix) {
         Some(num) => Ok(Cell::Number(num)),
         None => Ok(Cell::Symbol(span.to_string())),
